@@ -112,7 +112,7 @@ def direct_case(ctx, site, start: datetime, elapsed_list):
     _check_state(ctx, cp.toECI(start), start, site, wit2, "config_reuse", None, "config-copied")
 
 
-def scenario_case(ctx, sites, start: datetime, step: int, nsteps: int, late=None):
+def scenario_case(ctx, sites, start: datetime, step: int, nsteps: int, late=None, out_mult=1):
     """``late`` = (step index after which it is added, site): a ground facility added to the running scenario through the
     public ``Scenario.addSensor`` API."""
     from .. import scenario_kit as sk
@@ -121,8 +121,8 @@ def scenario_case(ctx, sites, start: datetime, step: int, nsteps: int, late=None
     r, v = sk.circ_state(7000.0, 51.6, 30.0, 40.0)
     tg = [sk.target_cfg(10001, r, v)]
     sn = [sk.ground_sensor_cfg(20001 + i, s[0], s[1], s[2], kind=["adv_radar", "optical", "radar"][i % 3]) for i, s in enumerate(sites)]
-    cfg = sk.scenario_cfg(start, start + timedelta(seconds=(nsteps + 1) * step), step, [sk.engine_cfg(1, tg, sn)], truth_only=True)
-    wit = {"kind": "scenario", "sites": [list(s) for s in sites], "start": start.isoformat(), "step": step, "nsteps": nsteps, "start_second": start.second,
+    cfg = sk.scenario_cfg(start, start + timedelta(seconds=(nsteps + 1) * step), step, [sk.engine_cfg(1, tg, sn)], truth_only=True, output_step=step * out_mult)
+    wit = {"kind": "scenario", "out_mult": out_mult, "sites": [list(s) for s in sites], "start": start.isoformat(), "step": step, "nsteps": nsteps, "start_second": start.second,
            "late": [late[0], list(late[1])] if late else None}
     sites = list(sites)
     b = sk.build(cfg)
@@ -193,8 +193,10 @@ def run(ctx):
         late = (rng.randrange(0, nsteps), _site(rng)) if rng.random() < 0.5 else None
         if late and rng.random() < 0.3:
             late = (late[0], (sites[-1][0], sites[-1][1], sites[-1][2] + 1.2))  # joins at the latitude/longitude of a running site
-        scenario_case(ctx, sites, start, step, nsteps, late)
+        out_mult = rng.choice([1, 1, 2, 3])  # the run writes its output every m-th step; where a site is does not depend on that
+        scenario_case(ctx, sites, start, step, nsteps, late, out_mult)
         ctx.count("scenario_runs")
+        ctx.count("scenario_runs_output_step_above_physics_step", int(out_mult > 1))
         ctx.case(("s", tuple(sites), start.isoformat(), step, nsteps), nontrivial=start.second != 0, sample={"sites": sites, "start": start.isoformat(), "step": step, "steps": nsteps} if i % 10 == 0 else None)
 
 
@@ -206,4 +208,4 @@ def replay(ctx, w):
         direct_case(ctx, tuple(w["site"]), datetime.fromisoformat(w["start"]), w["elapsed"])
     else:
         scenario_case(ctx, [tuple(s) for s in w["sites"]], datetime.fromisoformat(w["start"]), w["step"], w["nsteps"],
-                      (w["late"][0], tuple(w["late"][1])) if w.get("late") else None)
+                      (w["late"][0], tuple(w["late"][1])) if w.get("late") else None, w.get("out_mult", 1))
